@@ -14,9 +14,12 @@ the harness ops parse / fmt:
   comments of the text in order, fmt(fmt(text)) = fmt(text) when every comment
   of fmt(text) sits on a line of its own between statements;
 * every layout of the placer machine is realised as a program whose nodes sit
-  on the lines of the layout; the interleaving of comments and nodes in the
-  output, the printed comment texts, the comment map and the fixed point must be
-  what the spec predicts;
+  on the lines of the layout; the comments of the output must be the layout's
+  comments in order and the fixed point must hold under its precondition (the
+  property); the interleaving of comments and nodes, the printed comment texts,
+  the comment map and the predicted fixed point bind the machine to the code
+  (where the property leaves the code free, a mismatch is a stale transcription:
+  tool error, not a verdict - the same goes for the canonical text);
 * every .ucg file shipped in the repository (parse(fmt(text)) = parse(text),
   comments, fixed point), and a sample through `ucg fmt` / `ucg fmt -w`."""
 import glob
@@ -40,7 +43,9 @@ ASSUMPTIONS = [
     "the fixed-point clause is demanded only when every comment of fmt(text) is alone on its line and outside every TOP-LEVEL statement "
     "(comments between the statements of a module body are inside a statement: not demanded)",
     "text that the parser rejects is outside the property (shipped files that do not parse are counted and skipped)",
-    "layout (indentation, blank lines, line breaks) of the output is not compared except through the predicted canonical text of comment-free programs",
+    "layout of the output and the place of a comment relative to the code are not demanded by the property: the predicted canonical text of "
+    "comment-free programs and the predicted interleaving of comments and nodes only bind Fmt.tla to the printer; a mismatch on a case that "
+    "satisfies the property ends the run with a tool error (stale transcription), never with a violation",
     "negative literals, nested integer selectors and other forms the grammar cannot spell are not generated; Gen trees the parser cannot "
     "produce get the Grouped nodes the grammar demands before they are used",
     "floats are the dyadic pool plus 1e20 and 2^-30; non-finite floats cannot be written as literals",
@@ -242,7 +247,7 @@ def run_jobs(h, jobs):
     out = []
     for j in jobs:
         p0, f = j["_p0"], j["_r1"]
-        res = {"issues": [], "f1": None, "skipped": False}
+        res = {"issues": [], "f1": None, "skipped": False, "stale": None}
         out.append(res)
 
         def issue(what, key=None, **detail):
@@ -272,9 +277,10 @@ def run_jobs(h, jobs):
         if "crash" in p1 or "crash" in f2:
             issue("crash", None, obs=str(p1 if "crash" in p1 else f2)[:300], f1=f1)
             continue
-        # the canonical text (comment-free plain rendering)
+        # the canonical text (comment-free plain rendering): binds Canon of Fmt.tla to the printer.  The property
+        # does not prescribe a layout, so a mismatch alone is a stale transcription (tool error), not a verdict
         if j.get("canon_code") is not None and f1 != j["canon_code"] and f1 != j["canon_design"]:
-            issue("canon-text", None, f1=f1, predicted=j["canon_code"])
+            res["stale"] = {"what": "canon-text", "text": j["text"], "f1": f1, "predicted": j["canon_code"]}
         # same program
         same = p1.get("ok") and F.norm_impl(p1["stmts"]) == exp
         if not same:
@@ -324,12 +330,14 @@ def work_programs(h, items):
     jobs = []
     for tag, prog, cc, cd, devs, sd, k, gp in items:
         for variant, text, exp, cms, ntoks in _texts_of(prog, sd, k, gp):
+            if tag.startswith("DEMO:"):          # binding demonstration: an altered predicted tree
+                exp = (("expr", ("sym", "altered-prediction")),)
             jobs.append({"tag": tag, "variant": variant, "text": text, "exp": exp, "cms": cms, "devs": devs,
                          "canon_code": cc if variant == "plain" else None,
                          "canon_design": cd if variant == "plain" else None, "ntoks": ntoks})
     res = run_jobs(h, jobs)
     return [{"tag": j["tag"], "variant": j["variant"], "text": j["text"], "ntoks": j["ntoks"], "ncomments": len(j["cms"]),
-             "issues": r["issues"], "f1": r["f1"], "fixed_checked": r.get("fixed_checked", False)}
+             "issues": r["issues"], "f1": r["f1"], "fixed_checked": r.get("fixed_checked", False), "stale": r["stale"]}
             for j, r in zip(jobs, res)]
 
 
@@ -459,7 +467,7 @@ def work_place(h, items):
     it2 = iter(r2)
     out = []
     for (case, sd), text, f in zip(items, texts, r1):
-        res = {"text": text, "issues": [], "lay": case["lay"], "f1": None}
+        res = {"text": text, "issues": [], "lay": case["lay"], "f1": None, "stale": None}
         out.append(res)
 
         def issue(what, key=None, **d):
@@ -474,25 +482,30 @@ def work_place(h, items):
         devkeys = ["dev:" + d for d in case["devs"]]
         code, design = case["code"], case["design"]
         obs, sc1 = observed_seq(f1)
-        if obs == predicted_seq(code):
-            if predicted_seq(code) != predicted_seq(design):
-                for k in devkeys or [None]:
-                    issue("place-sequence", k, f1=f1, design=predicted_seq(design), got=obs)
-        elif obs != predicted_seq(design):
-            issue("place-sequence", None, f1=f1, predicted=predicted_seq(code), got=obs)
-            continue
-        maplines = [g["line"] for g in f.get("comments", [])]
-        if maplines != case["map"] and maplines != case["dmap"]:
-            issue("comment-map", None, predicted=case["map"], got=maplines)
+        pcode, pdesign = predicted_seq(code), predicted_seq(design)
+        # --- the property: every comment of the text (the layout's comments, by the spec), same text, same order
+        want = [frag_text(c["f"], c["id"]).strip() for c in case["src"]]
+        got = F.comment_texts(sc1)
+        if got != want:
+            as_predicted = got == [t.strip() for k, t in pcode if k == "c"]
+            for k in (devkeys if as_predicted and devkeys else [None]):
+                issue("place-comments", k, f1=f1, want=want, got=got)
+        # --- the property: fixed point when every comment sits on its own line between statements
         pre = F.comments_between_statements(sc1) and sc1["ok"]
         fixed_obs = "na" if not pre else ("yes" if f2.get("ok") and f2["text"] == f1 else "no")
         res["fixed"] = fixed_obs
-        if fixed_obs == code["fixed"]:
-            if fixed_obs == "no":
-                for k in devkeys or [None]:
-                    issue("place-fixed-point", k, f1=f1, f2=f2.get("text"))
-        elif fixed_obs != design["fixed"] or obs != predicted_seq(design):
-            issue("place-fixed-point", None, f1=f1, f2=f2.get("text"), predicted=code["fixed"], got=fixed_obs)
+        if fixed_obs == "no":
+            for k in (devkeys if code["fixed"] == "no" and devkeys else [None]):
+                issue("place-fixed-point", k, f1=f1, f2=f2.get("text"))
+        # --- binding of the model to the code (where the property leaves the code free a mismatch is a stale
+        #     transcription, reported as a tool error when nothing else is wrong)
+        maplines = [g["line"] for g in f.get("comments", [])]
+        if obs != pcode and obs != pdesign:
+            res["stale"] = {"what": "place-sequence", "text": text, "f1": f1, "predicted": pcode, "got": obs}
+        elif maplines != case["map"] and maplines != case["dmap"]:
+            res["stale"] = {"what": "comment-map", "text": text, "predicted": case["map"], "got": maplines}
+        elif fixed_obs not in (code["fixed"], design["fixed"]):
+            res["stale"] = {"what": "fixed-point-prediction", "text": text, "f1": f1, "predicted": code["fixed"], "got": fixed_obs}
     return out
 
 
@@ -726,13 +739,12 @@ def main(tier, replay=None):
     if not all(seen_place[k] for k in ("yes", "na", "look", "glue", "frag")):
         raise C.ToolError("vacuous placer sample: %r" % seen_place)
     if os.environ.get("VERIF_C05_DEMO"):
-        # binding demonstration: one altered prediction of each kind must be reported
+        # binding demonstration: one altered prediction of each kind must be reported as a violation
         it = list(items[0])
-        it[2], it[3] = it[2] + " ", it[3] + " "
+        it[0] = "DEMO:" + it[0]                      # the predicted tree of one program
         items[0] = tuple(it)
-        demo = json.loads(json.dumps(next(c for c in rp.replays if len(c["design"]["out"]) >= 3)))
-        for v in (demo["design"], demo["code"]):
-            v["out"] = v["out"][::-1]
+        demo = json.loads(json.dumps(next(c for c in rp.replays if len(c["src"]) >= 2)))
+        demo["src"] = demo["src"][:-1]               # the predicted comment sequence of one layout
         rp.replays.append(demo)
     results = C.proc_map(hp, work_programs, items, chunk=60, workers=10)
     # ---- replay: the placer's layouts
@@ -766,6 +778,7 @@ def main(tier, replay=None):
             samples.append({"case": r["tag"], "text": r["text"], "fmt": r["f1"]})
         if len(bin_texts) < (10 if quick else 40) and (stats["layouts"] + stats["files"]) % (23 if quick else 11) == 7:
             bin_texts.append(r["text"])
+    stale = [r["stale"] for r in results + presults if r.get("stale") and not r["issues"]]
     for r in presults:
         if r["f1"]:
             nontrivial.add(r["text"])
@@ -786,6 +799,7 @@ def main(tier, replay=None):
                 for case in cases:
                     f.write(json.dumps({"key": key, "known": True, "case": case}, ensure_ascii=False) + "\n")
     code = rep.finish()
+    stats["stale_transcription"] = len(stale)
     C.write_evidence(PID, tier, "model_checking", {
         "states": counts["states"], "transitions": counts["transitions"],
         "traces_validated_against_impl": stats["layouts"] + stats["place_replayed"] + stats["files"] + stats["binary"],
@@ -807,6 +821,10 @@ def main(tier, replay=None):
         "trusted_base": ["TLC 1.8.0", "vp/fmtlay.py (renderer, scanner, normal forms)", "harness AST projection (harness/src/proj.rs)",
                          "Rust's shortest round-trip float printing for the float pool"],
     }, time.time() - t0, violations=len(rep.violations), assumptions=ASSUMPTIONS)
+    if stale and code == 0:
+        raise C.ToolError("spec/Fmt.tla no longer transcribes the code: on %d case(s) the property holds but the printer's text / "
+                          "comment placement is not the predicted one (the property leaves it free, so this is no verdict): %s"
+                          % (len(stale), json.dumps(stale[0], ensure_ascii=False)[:1200]))
     return code
 
 
